@@ -488,7 +488,6 @@ const KT: f64 = 16.0;
 const KR: f64 = 64.0;
 
 fn regime<S: Dom>(t: &mut Tape, cx: &mut Cx) -> CaseResult {
-    let lim = flim::<S>();
     let eps = S::eps();
     let (a, alab) = regime_angle::<S>(t);
     cx.label(alab);
@@ -525,7 +524,6 @@ fn regime<S: Dom>(t: &mut Tape, cx: &mut Cx) -> CaseResult {
     let in_regime = alab != "ordinary angle" || ka.abs() > 10 || kv.abs() > 12 || km.abs() > 12;
     cx.set_nontrivial(s != 0.0 && c != 0.0 && in_regime);
     sample!(cx, "{} angle={:?} ({}) axis={:?} = dir {:?} * 2^{} (unit {:?}) v={:?} (x 2^{}) m x 2^{} q0={:?}", S::NAME, a, alab, axis, dir, ka, k, v, kv, km, q0);
-    let _ = lim;
 
     let ax = vk::v3(&axis);
     let rref = rodrigues_mat(&k, s, c, oc);
@@ -538,7 +536,6 @@ fn regime<S: Dom>(t: &mut Tape, cx: &mut Cx) -> CaseResult {
     let xref: M3 = [[o, z, z], [z, c, -s], [z, s, c]];
     let yref: M3 = [[c, z, s], [z, o, z], [-s, z, c]];
     let zref: M3 = [[c, -s, z], [s, c, z], [z, z, o]];
-    let e = [[o, z, z], [z, o, z], [z, z, o]];
     let v3 = v64(&v);
     let vmax = vk::vec_max(&v);
     let mmax = vk::mat_max(&m);
@@ -692,7 +689,6 @@ fn regime<S: Dom>(t: &mut Tape, cx: &mut Cx) -> CaseResult {
     let ey = v64(&vk::a2(&Vec2 { x: S::zero(), y: pv }.rotated_z(a)));
     check!(cx, near(cx, ex[0], c * p64, tol_t * p64) && near(cx, ex[1], s * p64, tol_st * p64), "Vec2(2^k, 0).rotated_z(angle): got {:?}, want (cos, sin) 2^k = {:?}", ex, [c * p64, s * p64]);
     check!(cx, near(cx, ey[0], -s * p64, tol_st * p64) && near(cx, ey[1], c * p64, tol_t * p64), "Vec2(0, 2^k).rotated_z(angle): got {:?}, want (-sin, cos) 2^k = {:?}", ey, [-s * p64, c * p64]);
-    let _ = e;
     Ok(())
 }
 
@@ -766,7 +762,7 @@ pub fn property() -> Property {
             checks.push(Check { name: $name, about: $about, kind: Kind::Tape { len: $len, quick: $q, thorough: $th, f: $f } });
         };
     }
-    let a = "rotation_3d / rotation_x/y/z (Mat2, Mat3, Mat4), quaternion and Vec2 rotation for a generated angle and non-unit axis: orthogonal, det +1, fixes the axis, equals the axis-angle definition on a random vector, handedness anchors, axis scaling law, Mat3 = block of Mat4, quaternion-derived matrix equal, chained/in-place variants pre-multiply";
+    let a = "rotation_3d / rotation_x/y/z (Mat2, Mat3, Mat4), quaternion and Vec2 rotation for a generated angle (floats: incl. small / many-turn regimes) and non-unit axis (floats: exact power-of-two lengths from far below eps to far above 1/eps): orthogonal, det +1, fixes the axis, equals the axis-angle definition on a random vector, handedness anchors, axis scaling law, Mat3 = block of Mat4, quaternion-derived matrix equal, chained/in-place variants pre-multiply";
     tape!("rotations-rows-rat", a, 96, 20_000, 500_000, rot_rows::<Rat>);
     tape!("rotations-cols-rat", a, 96, 20_000, 500_000, rot_cols::<Rat>);
     tape!("rotations-rows-f64", a, 256, 20_000, 500_000, rot_rows::<f64>);
@@ -776,17 +772,19 @@ pub fn property() -> Property {
     let r = "float regimes, every builder against a reference evaluated in f64 from the same float arguments: axis = direction (integer / coordinate axis / one dominant component / random) times an exact power of two from 2^-48..2^48 (f32), 2^-480..2^480 (f64) incl. lengths around eps and sqrt(eps); angle zero / small (to 2^-40, 2^-200) / next to a multiple of pi/2 / many turns (to 2^30, 2^60 rad); operands (vector, matrix) times an exact power of two. Matrix elements to 16 eps (axis-aligned) / 64 eps (arbitrary axis, quaternion), the rotation vector (R - R^T)/2 relative to |sin angle|, products relative to the operand's magnitude; axis given as Vec3 / Vec4 (w ignored) / array / tuple; Mat2/3/4 both layouts, Quaternion rotation_*/rotated_*/rotate_*, Vec2::rotated_z/rotate_z";
     tape!("regimes-f64", r, 320, 50_000, 1_500_000, regime::<f64>);
     tape!("regimes-f32", r, 320, 50_000, 1_500_000, regime::<f32>);
-    let b = "rotations about a common axis compose additively (Mat2/3/4, both layouts, axis-aligned and arbitrary axis); quaternion chained/in-place variants equal the Hamilton product with the constructor; q*Vec4 keeps w";
+    let b = "rotations about a common axis compose additively (Mat2/3/4, both layouts, axis-aligned and arbitrary axis; floats incl. small and many-turn angles with an exact float sum, tiny/huge axes); quaternion chained/in-place variants equal the Hamilton product with the constructor; q*Vec4 keeps w";
     tape!("additive-rat", b, 48, 20_000, 500_000, additive::<Rat>);
     tape!("additive-f64", b, 128, 20_000, 500_000, additive::<f64>);
     tape!("additive-f32", b, 128, 20_000, 500_000, additive::<f32>);
     Property {
         id: "C04",
-        rule: "angles: registered rational-trigonometry angles (tan(theta/4) rational, so sin/cos of theta and theta/2 are exact) for Rat, random and special angles in (-2pi,2pi) for floats; axes: Pythagorean integer vectors times a rational factor of either sign (exact unit direction known), plus arbitrary float axes of length 1e-3..1e3; non-trivial = sin != 0, cos not in {0,+-1}, axis with >= 2 non-zero components; distinct = distinct consumed tape prefix",
+        rule: "angles: registered rational-trigonometry angles (tan(theta/4) rational, so sin/cos of theta and theta/2 are exact) for Rat; floats: random and special angles in (-2pi,2pi) in half of the cases, otherwise a regime angle {+-0.0, small 2^-e(1+u) down to 2^-40 (f32) / 2^-200 (f64), q*pi/2 +- 2^-e, many turns 2^e(1+u) up to 2^30 (f32) / 2^60 (f64) rad}; sin/cos are always those of the float argument itself; angle pairs of the additive checks lie on a common power-of-two grid so that the float sum is exact; axes: Pythagorean integer vectors times a rational factor of either sign (exact unit direction known), arbitrary float directions, coordinate axes and directions with one dominant component, in float domains times an EXACT power of two 2^k, |k| <= 48 (f32) / 480 (f64), stratified over {1, 2^+-10, length ~ sqrt(eps), ~ eps, << eps, ~ 1/sqrt(eps), ~ 1/eps, >> 1/eps, range limit}; rotated vectors / matrices of the regimes-* checks times 2^k, |k| <= 60 (f32) / 400 (f64); non-trivial = sin != 0, cos not in {0,+-1}, axis with >= 2 non-zero components (rotations-*, additive-*); regimes-*: sin != 0, cos != 0 and at least one of {angle regime not ordinary, axis exponent beyond +-10, operand exponent beyond +-12}; distinct = distinct consumed tape prefix",
         assumptions: &[
             "rustc and the proptest runner/shrinker are trusted",
-            "oracle: axis-angle (Rodrigues) definition and Hamilton table in vkit::refmath; sin/cos come from the scalar domain (registered angles for Rat), not from vek",
-            "float tolerance 256*eps*max(1,|v|)",
+            "oracle: axis-angle (Rodrigues) definition and Hamilton table in vkit::refmath; sin/cos come from the scalar domain (registered angles for Rat), not from vek; regimes-*: the axis-angle matrix, the quaternion matrix and the 2D rotation are evaluated in f64 (std sin/cos of the float argument converted exactly to f64) from the unit direction computed in f64 before the exact power-of-two scaling",
+            "float tolerance 256*eps*max(1,|v|) in rotations-* / additive-*; regimes-*: 16 eps per element of an axis-aligned builder (one libm call), 64 eps per element for an arbitrary axis and for matrices from quaternions (<= 12 eps by operation count; largest ratio observed/tolerance 0.1 in 3*10^6 cases), the rotation vector (R - R^T)/2 to the same factors times (|sin| + (1 - cos)), i.e. relative to |sin| for small angles, products with an operand 4x these factors times the operand's largest element (never max(1, .))",
+            "excluded, because a normalisation by sqrt(x^2+y^2+z^2) (the documented `normalized()`) loses all meaning there: axes whose SQUARED length or squared non-zero components leave the normal range (|axis| outside about 2^-55..2^55 in f32, 2^-487..2^487 in f64), zero axes, non-finite angles or axes; angles below 2^-40 (f32) / 2^-200 (f64) other than +-0.0 and operands beyond 2^+-60 / 2^+-400 (sin(angle) * length could be subnormal)",
+            "not asserted: the sign of the quaternion (q and -q are the same rotation), the values of cos elements beyond an absolute eps (1 - cos of a small angle is not representable next to 1), bit-identity between axis lengths (only closeness to the reference), except that Vec3 / Vec4 / array / tuple forms of the SAME axis and in-place vs returning forms must be identical",
         ],
         checks,
         max_discard_frac: 0.1,
